@@ -15,6 +15,7 @@ import (
 	"verif/gen"
 	"verif/ref"
 	"verif/work"
+	"verif/ysugar"
 )
 
 func init() { Register("C09", "exploration", checkC09) }
@@ -266,6 +267,44 @@ func checkC09(c *Ctx) error {
 			if runS.Res.Exit != 0 || outS != outA {
 				files["input/"+name] = y
 				c.Violate(fmt.Sprintf("yaml-style-changes-output:style%d", style), fmt.Sprintf("the same document in YAML style %d: exit %d, output equal: %v\n%s\n%s", style, runS.Res.Exit, outS == outA, rejectReason2(runS), firstDiff(outA, outS)), files)
+			}
+		}
+		// (H) the same document re-spelled with anchors/aliases, merge keys, explicit core tags, block scalars and comments
+		// (validated: both texts decode to the same value) gives the same output; so does every fragment of the split form
+		{
+			rs := rand.New(rand.NewSource(c.Seed*7919 + int64(i)))
+			if y, st, ok := ysugar.Sugar(rs, single, 1); ok && st.Any() {
+				_ = work.WriteFile(filepath.Join(dir, "sugar.yaml"), []byte(y))
+				runS, outS := runBuild(c, dir, []string{"sugar.yaml"})
+				c.Add("yaml_sugar_compared", 1)
+				c.Add("yaml_sugar_aliases", st.Aliases)
+				c.Add("yaml_sugar_merge_keys", st.Merges)
+				c.Add("yaml_sugar_explicit_tags", st.Tags)
+				if runS.Res.Exit != 0 || outS != outA {
+					files["input/sugar.yaml"] = y
+					c.Violate("yaml-anchors-merge-keys-change-output:single", fmt.Sprintf("the same document written with anchors, aliases, merge keys and explicit tags: exit %d, output equal: %v\n%s\n%s", runS.Res.Exit, outS == outA, rejectReason2(runS), firstDiff(outA, outS)), files)
+				}
+			} else {
+				c.Add("yaml_sugar_not_applicable", 1)
+			}
+			var pats []string
+			changed := false
+			for x := 0; x < k; x++ {
+				y := parts[x].YAML()
+				if ys, st, ok := ysugar.Sugar(rs, y, 0.7); ok && st.Any() {
+					y, changed = ys, true
+				}
+				name := fmt.Sprintf("sugar-%d.yaml", x)
+				_ = work.WriteFile(filepath.Join(dir, name), []byte(y))
+				files["input/"+name] = y
+				pats = append(pats, name)
+			}
+			if changed {
+				runS, outS := runBuild(c, dir, pats)
+				c.Add("yaml_sugar_split_compared", 1)
+				if runS.Res.Exit != 0 || outS != outB {
+					c.Violate("yaml-anchors-merge-keys-change-output:split", fmt.Sprintf("the fragments written with anchors, aliases, merge keys and explicit tags: exit %d, output equal: %v\n%s\n%s", runS.Res.Exit, outS == outB, rejectReason2(runS), firstDiff(outB, outS)), files)
+				}
 			}
 		}
 		if i == 2 {
